@@ -234,8 +234,12 @@ def gen_random_cases(rng, n, clean_ratio=3):
         st["id"] = "r%d" % i
         st["tag"] = "clean" if clean else "edgy"
         st["fx"] = [le(rand_u64(rng)) for _ in range(3)]
-        if rng.n(6) == 0 and starts:
+        k = rng.n(12)
+        if k < 2 and starts:
             st["pc"] = rng.pick(starts)
+        elif k == 2:
+            # any position, also inside an instruction's operands (counts as trap) or just past the end of the code
+            st["pc"] = rng.n(len(prog["code"]) + 3)
         cases.append(st)
     return cases
 
